@@ -410,6 +410,23 @@ func runC05(t *testing.T, c simrt.Chooser, o Opts) *Out {
 	}
 	// build the spec first, then add frame options, then the world
 	s := genScan(p, k.gen)
+	longHistory := o.Tier == "thorough" && o.Index >= 511 && o.Index < 515
+	if longHistory {
+		// one filler instance builds more than 2^16 frames (per-filler counters wrap): 2 hosts x
+		// 35 000 ports, for udp / tcp syn / tcp with flags / icmp with many addresses
+		kinds := [][]string{{"udp"}, {"tcp", "syn"}, {"tcp"}, {"icmp"}}
+		s = &scanSpec{Cmd: kinds[o.Index-511], Kind: kinds[o.Index-511][0], Mode: "subnet", JSON: true, GwMAC: gwMAC}
+		if s.Kind == "icmp" {
+			s.Subnet = mkCIDR(ipU32("100.64.0.0"), 15) // 131072 addresses
+		} else {
+			s.Subnet = mkCIDR(ipU32("198.51.100.10"), 31)
+			s.Ports = []portRange{{1, 35000}}
+			if o.Index == 513 {
+				s.TCPFlags = []string{"fin", "psh"}
+			}
+		}
+		s.SubnetArg = s.Subnet.String()
+	}
 	if len(s.Cache) == 0 && !s.VPN && s.Kind != "arp" && p.pct("cache", 50) {
 		// some destinations have their own cache entry
 		want := s.expected()
@@ -429,6 +446,10 @@ func runC05(t *testing.T, c simrt.Chooser, o Opts) *Out {
 	s.ExitDelay = "1ms"
 	w := s.world()
 	w.NumCPU = p.pick("numcpu", 1, 2, 4, 16)
+	if longHistory {
+		w.maxSteps = 12_000_000
+		simrtFault(&Out{Stats: map[string]int{}}, "long-history")
+	}
 	sc := &c05Scenario{pktScenario: &pktScenario{Spec: s, World: w}, Expect: fe}
 	out := &Out{Scenario: sc, Stats: map[string]int{}}
 	cr := runCmd(t, c, w, o.Trace)
@@ -437,6 +458,9 @@ func runC05(t *testing.T, c simrt.Chooser, o Opts) *Out {
 	out.Stats["cmd:"+s.Kind]++
 	out.Nontrivial = len(cr.Wire) >= 1
 	out.Key = fmt.Sprintf("%v/%v/%v/%016x", s.Cmd, s.TCPFlags, s.Extra, cr.Res.Hash)
+	if longHistory {
+		simrtProbe(&cr.Res, "more-than-65536-frames-from-one-filler")
+	}
 	if crashOrHang(out, "C05", cr) {
 		return out
 	}
